@@ -1,6 +1,9 @@
 //! Censuses: finite dimensions enumerated completely.
 
 pub fn materialize(spec: &str) -> Option<Vec<u8>> {
+    if let Some(rest) = spec.strip_prefix("hist:") {
+        return Some(rest.as_bytes().to_vec());
+    }
     if spec.starts_with("leb:") {
         return materialize_leb(spec);
     }
@@ -89,4 +92,39 @@ pub fn materialize_leb(spec: &str) -> Option<Vec<u8>> {
     let b: usize = it.next()?.parse().ok()?;
     let v: u64 = it.next()?.parse().ok()?;
     Some(leb_module(n, b, v))
+}
+
+pub const HIST_COLLECTIONS: [&str; 11] = ["types", "exports", "imports", "globals", "tables", "memories", "data", "elements", "funcs", "locals", "customs"];
+
+/// All histories of exactly `len` symbols over the alphabet {add 0, add 1, delete first issued,
+/// delete second issued, delete last issued}; every shorter history is a prefix of one of them and
+/// is observed step by step.
+pub fn hist_exhaustive(len: usize) -> Vec<String> {
+    const ALPHA: [char; 5] = ['a', 'b', '0', '1', 'L'];
+    let mut out = Vec::new();
+    let total = ALPHA.len().pow(len as u32);
+    for coll in HIST_COLLECTIONS {
+        for mut n in 0..total {
+            let mut s = String::with_capacity(len);
+            for _ in 0..len {
+                s.push(ALPHA[n % ALPHA.len()]);
+                n /= ALPHA.len();
+            }
+            out.push(format!("hist:{}:{}", coll, s));
+        }
+    }
+    out
+}
+
+pub fn hist_random(seed: u64, n: usize, len: usize) -> Vec<String> {
+    const ALPHA: &[u8] = b"abcdefgh0123456789LLaabbcc";
+    let mut out = Vec::new();
+    let mut rng = crate::rng::Rng::derive(seed, &[0xC17]);
+    for coll in HIST_COLLECTIONS {
+        for _ in 0..n {
+            let s: String = (0..len).map(|_| ALPHA[rng.usize(ALPHA.len())] as char).collect();
+            out.push(format!("hist:{}:{}", coll, s));
+        }
+    }
+    out
 }
